@@ -83,6 +83,12 @@ PROPS = {
             'technique': 'Verus contracts on Display for Label and Display for CharacterString with std::fmt::Formatter modelled by one ghost predicate ("the sink failed"); panic-freedom of the parse-produced observers that are inside Verus',
             'text': 'proof for all label / string contents: fmt returns Err only if the formatter\'s sink returned Err and never panics (from_utf8 failure falls back to a lossy rendering); this is what to_string() / format!() and the Debug impls built on them rely on. Display for Name, the Debug impls (format_args!), TXT::attributes / long_attributes and String::try_from are outside Verus: they are listed as unverified observers (they only propagate the results of the two verified functions or use Result-returning std conversions)',
             'note': VERUS_NOTE + '; Formatter::write_str, str::from_utf8, String::from_utf8_lossy are assume_specification items; into_owned / clone / Hash / Eq are derive- or iterator-based and not verified here'},
+    'C17': {'verus': False, 'level': 'other',
+            'kani': ['label_grammar_le65'] + ['suffix_0_0', 'suffix_0_1', 'suffix_0_2', 'suffix_0_3', 'suffix_1_0', 'suffix_1_1', 'suffix_1_2', 'suffix_1_3', 'suffix_2_0', 'suffix_2_1', 'suffix_2_2', 'suffix_2_3', 'suffix_3_0', 'suffix_3_1', 'suffix_3_2', 'suffix_3_3'] + ['link_local_4', 'link_local_5', 'link_local_6', 'link_local_root'],
+            'technique': 'Kani/CBMC bounded harnesses on the real functions (Label::new grammar for every byte string of length <= 65; is_subdomain_of / without for all shapes of <= 3 one-byte labels; is_link_local for last labels of length 4, 5, 6)',
+            'text': 'bounded: each harness is exhaustive within its stated bound (all byte values), not a proof for all lengths. Decided: the label grammar clause for labels up to 65 bytes (longer ones take the same early return), the suffix relation and suffix removal for every pair of names with 0..=3 one-byte labels, link-local detection for one- and two-label names whose last label has 4, 5 or 6 bytes. NOT decided: Name::new as a whole (splitting on dots + 255-byte rule: collect::<Result<Vec<_>,_>>() did not finish under CBMC) and the display-then-reparse clause (format_args!)',
+            'explanation': 'bounded: Kani harnesses with #[kani::unwind]; bounds: label length <= 65 bytes; names of <= 3 labels of exactly 1 byte for the suffix algebra; last label of 4/5/6 bytes for link-local. Within each bound all byte values are covered (CBMC, unwinding assertions on). Name::new composition and display round-trip are not decided by any check.',
+            'note': KANI_NOTE + '; bounded stand-in, never counted as proved'},
     'C18': {'verus': True, 'kani': ['type_table_all_codes', 'type_mnemonics', 'class_table_all_codes', 'qclass_table_all_codes',
                                     'qtype_table_all_codes', 'match_qclass_matrix', 'match_qtype_matrix'],
             'technique': 'Kani/CBMC loop-free over all 65536 codes and the full match matrix; Verus contracts (from_spec/try_from_spec tables) on the conversions of dns/mod.rs',
